@@ -154,7 +154,106 @@ func VerifC05Arch(x string) int {
 	return 0
 }
 
+// ---------------------------------------------------------------- C04
+
+func dumpArch(a *Arch) string {
+	return a.ABI + "\x00" + a.OS + "\x00" + a.CPU + "\x00"
+}
+
+// verifDump writes a dependency in a canonical, unambiguous form that does not go through String().
+func verifDump(d *Dependency) string {
+	out := ""
+	for _, rel := range d.Relations {
+		out += "R"
+		for i := range rel.Possibilities {
+			p := &rel.Possibilities[i]
+			out += "P" + p.Name + "\x00"
+			if p.Substvar {
+				out += "$"
+			} else {
+				out += "-"
+			}
+			if p.Arch != nil {
+				out += "A" + dumpArch(p.Arch)
+			} else {
+				out += "a"
+			}
+			if p.Version != nil {
+				out += "V" + p.Version.Operator + "\x00" + p.Version.Number + "\x00"
+			} else {
+				out += "v"
+			}
+			if p.Architectures != nil && len(p.Architectures.Architectures) > 0 {
+				if p.Architectures.Not {
+					out += "S!"
+				} else {
+					out += "S+"
+				}
+				for j := range p.Architectures.Architectures {
+					out += dumpArch(&p.Architectures.Architectures[j]) + ";"
+				}
+			} else {
+				out += "s"
+			}
+			for _, ss := range p.StageSets {
+				out += "G"
+				for _, st := range ss.Stages {
+					if st.Not {
+						out += "!"
+					} else {
+						out += "+"
+					}
+					out += st.Name + "\x00"
+				}
+			}
+			out += "g"
+		}
+	}
+	return out
+}
+
+// VerifC04Accept: s is a field built from the Policy grammar; expect is the canonical dump of the
+// structure it denotes.  0 = parsed to exactly that structure (by Parse and by UnmarshalControl).
+func VerifC04Accept(s, expect string) int {
+	d, err := Parse(s)
+	if err != nil {
+		return 1
+	}
+	if d == nil {
+		return 2
+	}
+	if verifDump(d) != expect {
+		return 3
+	}
+	var u Dependency
+	if err := u.UnmarshalControl(s); err != nil {
+		return 4
+	}
+	if verifDump(&u) != expect {
+		return 5
+	}
+	return 0
+}
+
+// VerifC04Reject: s is malformed; Parse must return an error and no result.
+func VerifC04Reject(s string) int {
+	d, err := Parse(s)
+	if err == nil {
+		return 1
+	}
+	if d != nil {
+		return 2
+	}
+	var u Dependency
+	if err := u.UnmarshalControl(s); err == nil {
+		return 3
+	}
+	return 0
+}
+
 var verifFuncs = map[string]interface{}{
-	"VerifC05Dep":  VerifC05Dep,
-	"VerifC05Arch": VerifC05Arch,
+	"VerifC05Dep":    VerifC05Dep,
+	"VerifC05Arch":   VerifC05Arch,
+	"VerifC04Accept": VerifC04Accept,
+	"VerifC04Reject": VerifC04Reject,
 }
